@@ -14,21 +14,6 @@ Definition mop_once_scope (o : mop) : Prop :=
 Definition mno_session_between (ops : list mop) (j i : nat) : Prop :=
   forall k sets b, (j <= k <= i)%nat -> nth_error ops k <> Some (MUser (OSession sets b)).
 
-Lemma sess_fold_ext : forall sets cur rs batch cur' rs' batch',
-  fold_left fsess_step sets (cur, rs, batch) = (cur', rs', batch') -> s_ext cur' = s_ext cur.
-Proof.
-  induction sets as [|[v x] r IH]; intros cur rs batch cur' rs' batch' H; cbn [fold_left] in H.
-  - inversion H. reflexivity.
-  - rewrite fsess_step_eq in H. apply IH in H. rewrite H. apply (proj2 (set_input_we _ _ _)).
-Qed.
-Lemma refresh_fold_ext0 : forall l cur batch cur' batch',
-  fold_left refresh_step l (cur, batch) = (cur', batch') -> s_ext cur' = s_ext cur.
-Proof.
-  induction l as [|e r IH]; intros cur batch cur' batch' H; cbn [fold_left] in H.
-  - inversion H. reflexivity.
-  - unfold refresh_step at 2 in H. cbv zeta in H. apply IH in H. rewrite H. rewrite (proj2 (set_input_we _ _ _)). reflexivity.
-Qed.
-
 Section COnce.
 Variable p : program.
 Variables tord bord pord : state -> node -> list node -> list node.
